@@ -22,6 +22,24 @@ def mix(*weighted):
     return st.integers(0, len(table) - 1).flatmap(lambda i: table[i])
 
 
+def crowd(kw, **extra):
+    """several sub-array observations falling due together on a cluster with a generous ingest limit:
+    simultaneous ingests, same-step starts, machines contended between ingest and workflows"""
+    a = dict(min_obs=2, start_gaps=(0, 0, 0, 1, 2), overlap=True, modes=('roomy',), max_duration=8)
+    a.update(kw)
+    a.update(extra)
+    return scenarios(**a)
+
+
+def limited(kw, **extra):
+    """plenty of machines and arrays but a small ingest-machine limit that overlapping ingests run into"""
+    a = dict(min_obs=3, limit_binds=True, modes=('roomy',), start_gaps=(0, 1, 2, 3), max_duration=10)
+    a.update(kw)
+    a['max_machines'] = max(a.get('max_machines', 6), 6)
+    a.update(extra)
+    return scenarios(**a)
+
+
 def brief(sc):
     """short description of a scenario for evidence samples"""
     return {'alg': sc['alg']['kind'], 'mode': sc['mode'], 'machines': len(sc['machines']),
@@ -119,8 +137,11 @@ class C05(SimSpec):
     def strategy(self, tier):
         kw = self.gen_kwargs(tier)
         main = scenarios(delays=True, **kw)
+        # several observations falling due together while machines are busy (trigger class of D2)
+        crowd = scenarios(min_obs=3, start_gaps=(0, 0, 0, 1), overlap=True, modes=('roomy',), delays=True, **kw)
+        crowd2 = scenarios(min_obs=3, start_gaps=(0, 0, 1), few_machines=True, **kw)
         probe = scenarios(modes=('tiering',), **kw)
-        return mix((9, main), (1, probe))
+        return mix((4, main), (3, crowd), (1, crowd2), (1, limited(kw, delays=True)), (1, probe))
 
     def sig(self, v, tr):
         if tr.tiering_entered:
@@ -189,7 +210,8 @@ class C01(SimSpec):
         shipped2 = scenarios(delays=True, **kw)
         adv = scenarios(adversary=True, delays=True, **kw)
         advfew = scenarios(adversary=True, few_machines=True, min_obs=2, **kw)
-        return mix((3, shipped), (2, shipped2), (3, adv), (2, advfew))
+        return mix((2, shipped), (2, shipped2), (2, crowd(kw, delays=True)), (3, adv), (2, advfew),
+                   (1, crowd(kw, adversary=True)))
 
     def aborted(self, tr):
         return tr.status != 'completed' and tr.sc['alg']['kind'] != 'adversary'
@@ -230,6 +252,7 @@ class C03(SimSpec):
         kw = self.gen_kwargs(tier)
         kw['max_nodes'] = max(kw['max_nodes'], 7)
         return mix((2, scenarios(delays=True, piled_plans=True, **kw)),
+                   (1, crowd(kw, delays=True, piled_plans=True)),
                    (1, scenarios(delays=True, piled_plans=True, few_machines=True, **kw)))
 
     def nontrivial(self, tr):
@@ -269,8 +292,8 @@ class C04(SimSpec):
 
     def strategy(self, tier):
         kw = self.gen_kwargs(tier)
-        return mix((5, scenarios(delays=True, min_obs=2, **kw)), (1, scenarios(delays=True, **kw)),
-                   (3, scenarios(adversary=True, delays=True, **kw)))
+        return mix((4, scenarios(delays=True, min_obs=2, **kw)), (1, scenarios(delays=True, **kw)),
+                   (2, crowd(kw, delays=True)), (3, scenarios(adversary=True, delays=True, **kw)))
 
     def aborted(self, tr):
         return tr.status != 'completed' and tr.sc['alg']['kind'] != 'adversary'
@@ -328,11 +351,13 @@ class C07(SimSpec):
         main = scenarios(units=True, delays=True, min_obs=2, **kw)
         rej = with_rejection(scenarios(units=True, **kw))
         probe = scenarios(modes=('tiering',), min_obs=2, **kw)
-        return mix((8, main), (1, rej), (1, probe))
+        return mix((6, main), (2, crowd(kw, delays=True)), (1, rej), (1, probe))
 
     def violations(self, tr):
         out = O.C07(tr)
         rej = tr.sc.get('reject')
+        if not rej and tr.status == 'raised' and tr.exc_sig.startswith('ValueError@core/buffer.py:process_incoming_data_stream'):
+            out.append(O.V('C07', 'rejected_legal_rate', f"ingest within the hot buffer's max ingest rate was rejected: {tr.exc_msg}"))
         if rej:
             if tr.status == 'completed':
                 out.append(O.V('C07', 'rate_not_enforced', f"observations {rej} exceed the hot buffer's max ingest rate but the run completed"))
@@ -410,6 +435,8 @@ class C08(SimSpec):
         kw = self.gen_kwargs(tier)
         return mix((3, scenarios(min_obs=2, delays=True, **kw)),
                    (1, scenarios(min_obs=2, few_machines=True, **kw)),
+                   (2, scenarios(min_obs=3, start_gaps=(0, 0, 0, 1), overlap=True, modes=('roomy',), delays=True, **kw)),
+                   (2, limited(kw)),
                    (1, scenarios(min_obs=3, start_gaps=(0, 0, 1), **kw)))
 
     def nontrivial(self, tr):
@@ -444,6 +471,7 @@ class C09(SimSpec):
     def strategy(self, tier):
         kw = self.gen_kwargs(tier)
         return mix((3, scenarios(algs=('batch',), min_obs=2, delays=True, **kw)),
+                   (2, crowd(kw, algs=('batch',), min_obs=3, delays=True)),
                    (1, scenarios(algs=('batch',), min_obs=3, start_gaps=(0, 0, 1, 2), **kw)))
 
     def nontrivial(self, tr):
@@ -530,7 +558,7 @@ class C13(SimSpec):
 
     def strategy(self, tier):
         kw = self.gen_kwargs(tier)
-        base = mix((3, scenarios(min_obs=2, delays=True, **kw)), (1, scenarios(**kw)))
+        base = mix((3, scenarios(min_obs=2, delays=True, **kw)), (2, crowd(kw)), (1, scenarios(**kw)))
 
         def add(pair):
             sc, fr = pair
@@ -603,6 +631,7 @@ class C17(SimSpec):
     def strategy(self, tier):
         kw = self.gen_kwargs(tier)
         return mix((3, scenarios(algs=('dynamic',), piled_plans=True, min_obs=2, delays=True, **kw)),
+                   (1, crowd(kw, algs=('dynamic',), piled_plans=True, delays=True)),
                    (1, scenarios(algs=('dynamic',), piled_plans=True, **kw)))
 
     def nontrivial(self, tr):
@@ -632,7 +661,7 @@ class C19(SimSpec):
 
     def strategy(self, tier):
         kw = self.gen_kwargs(tier)
-        return scenarios(delays=True, **kw)
+        return mix((3, scenarios(delays=True, **kw)), (1, crowd(kw, delays=True)))
 
     def nontrivial(self, tr):
         c = tr.counts
